@@ -3,6 +3,8 @@ package crashkit10
 import (
 	"bufio"
 	"bytes"
+	"context"
+	"errors"
 	"fmt"
 	"os"
 	"os/exec"
@@ -11,7 +13,14 @@ import (
 	"sort"
 	"strconv"
 	"strings"
+	"time"
 )
+
+// ErrTimeout: the traced child did not finish within ChildTimeout (a loaded
+// machine); the run says nothing about the property.
+var ErrTimeout = errors.New("traced child timed out")
+
+const ChildTimeout = 180 * time.Second
 
 // TraceSet is the set of system calls that are crash points: everything that
 // reads or changes the file system (other system calls - futex, mmap, signals -
@@ -131,11 +140,16 @@ func Run(exe, dir, scriptPath, workDir string, inj *Inject) (*Trace, error) {
 		args = append(args, "-e", fmt.Sprintf("inject=%s:signal=KILL:when=%d", inj.Name, inj.Ord))
 	}
 	args = append(args, exe, "child", dir, scriptPath)
-	cmd := exec.Command("strace", args...)
+	ctx, cancel := context.WithTimeout(context.Background(), ChildTimeout)
+	defer cancel()
+	cmd := exec.CommandContext(ctx, "strace", args...)
 	cmd.Env = append(os.Environ(), "GOMAXPROCS=1", "GOGC=off")
 	var out, errb bytes.Buffer
 	cmd.Stdout, cmd.Stderr = &out, &errb
 	runErr := cmd.Run()
+	if ctx.Err() != nil {
+		return nil, ErrTimeout
+	}
 	files, _ := filepath.Glob(filepath.Join(prefix, "t.*"))
 	sort.Strings(files)
 	var main *Trace
